@@ -152,6 +152,8 @@ def gen_cfg(rng, idx, force=None):
     cfg["calls"] = calls
     # request for the save_raw_data=False route; whether it is taken is decided at the checkpoint (run_case)
     cfg["raw"] = force.get("raw", rng.chance(0.6))
+    if not cfg["raw"]:
+        cfg["auto"] = force.get("auto", rng.chance(0.5))
     return cfg
 
 
@@ -189,6 +191,8 @@ def run_case(ctx, drv, cfg, split, pinned, scratch):
     """returns nothing; reports through ctx"""
     from . import c05_problem as cp
     case = {"cfg": cfg, "split": split, "pinned": bool(pinned)}
+    if cfg.get("auto"):      # raw data on disk: from_file reloads and re-preprocesses the dataset by itself
+        cfg = dict(cfg, raw_path=os.path.join(scratch, "c05_raw_%dx%d_%d.zip" % (cfg["scan"][0], cfg["scan"][1], cfg["seed"])))
     pin = (1000 + 7 * split[0] + split[1]) if pinned else None
     tol = TOL_PINNED if pinned else TOL_NATURAL
     stream = "resume-pinned" if pinned else "resume-natural"
@@ -231,14 +235,14 @@ def run_case(ctx, drv, cfg, split, pinned, scratch):
         ctx.dist["raised"] += 1
         return
     gap = state_gap(views_B)
-    ctx.dist[f"route:save_raw_data={raw_eff}"] += 1
+    ctx.dist[f"route:save_raw_data={raw_eff}" + (":dataset_auto_reloaded_from_file" if (not raw_eff and cfg.get("auto")) else "")] += 1
     ctx.dist[f"clone_path:{clone_path}"] += 1
     ctx.dist[f"state_gap:{gap}"] += 1
     if total > 0:
         ctx.mark(cfg_sig(cfg, split, pinned))
     ctx.sample({"cfg": cfg, "split": split, "pinned": bool(pinned)}, limit=4)
     obs_U = cp.observe(U)
-    sfx = "+state-gap" if gap else ""
+    sfx = ("+state-gap" if gap else "") + ("+dataset-auto-reload" if (not raw_eff and cfg.get("auto")) else "")
     # non-degeneracy of the continuation: does it change what is compared?
     moved = cp.compare(obs_U, obs_B0)
     for k in ("obj", "probe", "iter_losses", "iter_lrs"):
@@ -589,8 +593,10 @@ FORCED = [
     {"opt": "adam", "sched": "none", "keys": ["object", "probe"], "shape": "single", "n": 3, "learn_tilt": True, "num_slices": 1},
     {"opt": "adam", "sched": "linear", "keys": ["object", "probe", "dataset"], "shape": "single", "n": 3, "descan_const": True},
     {"opt": "sgd", "sched": "none", "keys": ["object", "probe"], "shape": "single", "n": 2, "learn_tilt": True, "num_slices": 2},
-    {"opt": "adam", "sched": "plateau", "keys": ["object"], "shape": "single", "n": 3, "raw": False},
-    {"opt": "sgd", "sched": "none", "keys": ["object", "dataset"], "shape": "ds-removed", "raw": False, "learn_tilt": False},
+    {"opt": "adam", "sched": "plateau", "keys": ["object"], "shape": "single", "n": 3, "raw": False, "auto": False},
+    {"opt": "sgd", "sched": "none", "keys": ["object", "dataset"], "shape": "ds-removed", "raw": False, "learn_tilt": False, "auto": False},
+    {"opt": "adam", "sched": "exp", "keys": ["object", "probe", "dataset"], "shape": "ds-removed", "raw": False, "learn_tilt": False, "auto": True},
+    {"opt": "adamw", "sched": "none", "keys": ["object", "probe"], "shape": "single", "n": 3, "raw": False, "auto": True},
 ]
 
 
@@ -603,7 +609,7 @@ def run(ctx):
     tempfile.tempdir = scratch          # Ptychography.clone() stages its fallback file in tempfile.gettempdir()
     drv = None if os.environ.get("C05_NO_DRIVER") else Driver("C05")
     rng = ctx.rng.fork(5)
-    n_cfg = ctx.n(40, 150)
+    n_cfg = ctx.n(34, 150)
     budget = 165.0 if not ctx.thorough() else 1050.0
     if ctx.search_mode:
         budget *= 2
